@@ -1027,6 +1027,9 @@ where
                 })
                 .await?;
 
+            // The minimum interval and the liveness deadline run from the moment
+            // the priming report is complete, not from the moment the request arrived.
+            rctx.set_reported_at(Instant::now());
             rctx.set_keep();
 
             info!("Subscription {:?} primed", rctx.subscription().ids());
@@ -1350,7 +1353,15 @@ where
                 let result = self.process_subscription(matter, &mut rctx).await;
 
                 match result {
-                    Ok((true, true)) => rctx.set_keep(),
+                    Ok((true, true)) => {
+                        // `now` was sampled once for the whole iteration; the reports
+                        // to other subscribers handled before this one may have taken
+                        // a while. Stamp the report with the time it was really
+                        // delivered, or the next one could follow sooner than the
+                        // negotiated minimum interval.
+                        rctx.set_reported_at(Instant::now());
+                        rctx.set_keep()
+                    }
                     // The report turned out empty and - not being due yet - was
                     // not sent: the subscriber heard nothing from us, so its
                     // liveness clock (and ours) must keep running.
